@@ -58,5 +58,16 @@ PLAN = _drive.Plan(
 
 
 
+def sig_fn(case, hist, op, issue, sig):
+    # one mechanism, one signature: Scan.edit_regenerate returns a VectorRequest that no
+    # edit implementation accepts, whatever program the scan sits in
+    if issue.clause == "bwd.apply" and "NotImplementedError@scan.py:edit" in issue.detail:
+        return "C06|op=bwd:regenerate|on=Scan|field=bwd.apply|cond=VectorRequest-not-accepted-by-Scan.edit"
+    return None
+
+
+PLAN.sig_fn = sig_fn
+
+
 def run(ctx):
     _drive.run(ctx, PLAN)
